@@ -116,6 +116,7 @@ func Main() int {
 		return 2
 	}
 	out := run(job, eng)
+	writeCoverage()
 	enc, _ := json.Marshal(out)
 	if err := os.WriteFile(job.Out, enc, 0644); err != nil {
 		fmt.Fprintln(os.Stderr, "worker: cannot write result:", err)
